@@ -25,7 +25,7 @@ CLAIMS = {
              "sites that construct Call/TailCall/Send/Spawn/Select — the only ways compiled code applies one value to another), with "
              "outcome-sensitive reachability (the false outcome of the check must not reach the emission) and operand provenance (the check is "
              "against the callee's own parameter/send type), plus the quantifier polarity of unification over union arguments. Two recorded known "
-             "findings (unchecked tail-call arguments). It does NOT decide that accepted programs never get stuck.",
+             "findings (unchecked tail-call arguments). It does NOT decide that accepted programs never get stuck. Also: a named field access on a union compiles to one Get(index) only after the index found for every variant was compared (R-C01-7).",
         design="§3 C01", technique="static analysis: MIR must-pass-through with outcome-sensitive reachability and operand provenance; HIR loop-return polarity"),
     "C02": dict(
         text="Decides one structural necessary condition of C02: every forward-jump placeholder the code generator plants is pointed at its join "
@@ -34,7 +34,7 @@ CLAIMS = {
              "Jump(0), in range but wrong, so only a behaviour check or this pairing rule sees it. Also: Reset on every compiled branch, block lifting "
              "only for sole-term blocks, and the operand-stack discipline of the emitted code decided on the generator (one height at every emitted "
              "join on every generator path; reviewed net-effect contracts) for the generator functions whose effect is not data-dependent. Values "
-             "and evaluation order are NOT decided.",
+             "and evaluation order are NOT decided. Also: one field index for every variant of a union (shared with R-C01-7).",
         design="§3 C02", technique="static analysis: MIR forward value-flow closure + path exploration with discriminant threading; emission-effect abstract interpretation of the code generator"),
     "C05": dict(
         text="Decides structural clauses of select: who may remove from a mailbox and under which verdict (removed index tied to the examined/held "
